@@ -9,6 +9,7 @@ import (
 type checkFn func(*Ctx) (string, []string)
 
 var registry = map[string]checkFn{
+	"C07": checkC07,
 	"C22": checkC22,
 	"C25": checkC25,
 	"C28": checkC28,
